@@ -274,17 +274,20 @@ func VerifC16_EFmtFree() {
 // formatting is idempotent also for sources that are nothing but blank lines and comments: a prior
 // Format call (3 kinds, or none), then a subject made of 0..3 whitespace bytes (space, newline;
 // thorough: also tab, carriage return -- solver chosen), a body out of 7 (comment-only, comment + form, form
-// only, empty) and 0..2 trailing newlines, in two configurations.
+// only, empty, calls whose first argument wraps) and 0..2 trailing newlines, in two configurations;
+// every call of one path shares ONE Config value.
 func VerifC16_EFmtSeq() {
 	priors := []string{"", "(a b)\n", "; lead\n(a)\n", "\n\n; only\n"}
-	bodies := []string{"; c\n", "; c", "; c\n; d\n", "; c\n\n; d\n(a)\n", "(a) ; t\n", "(a)\n\n\n; end\n", ""}
+	bodies := []string{"; c\n", "; c", "; c\n; d\n", "; c\n\n; d\n(a)\n", "(a) ; t\n", "(a)\n\n\n; end\n", "",
+		"(thread-first x\n  (f 1)\n  (g 2))\n(thread-first\n  x\n  (f 1))\n", "(thread-last xs\n (map f)\n (select g))\n(thread-last\n  xs\n  (map f))\n(let ((a 1))\n  a)\n"}
 	pi := vndChoice("prior", len(priors))
 	cfgk := vndChoice("config", 2)
+	cfg := c16Config(cfgk) // ONE Config value for every call, as `elps fmt a.lisp b.lisp` and an embedder keep it
 	if pi > 0 {
-		_, err := formatter.Format([]byte(priors[pi]), c16Config(cfgk))
+		_, err := formatter.Format([]byte(priors[pi]), cfg)
 		vAssert(err == nil, "prior source formats")
 	}
-	n := vndChoice("lead", 4)
+	n := vndChoice("lead", vParam("maxlead", 2)+1)
 	var src []byte
 	for i := 0; i < n; i++ {
 		src = append(src, " \n\t\r"[vndChoice("ws", vParam("wskinds", 2))])
@@ -296,14 +299,14 @@ func VerifC16_EFmtSeq() {
 	vObserve("src", string(src))
 	want, okIn := parseStrict(string(src))
 	vAssume(okIn)
-	out, err := formatter.Format(src, c16Config(cfgk))
+	out, err := formatter.Format(src, cfg)
 	vAssert(err == nil, "input the reader accepts is formatted")
 	got, okOut := parseStrict(string(out))
 	vAssert(okOut && treesEq(got, want), "the formatted text reads back to the identical trees")
 	vAssert(sameStrings(c16Comments(c16Tokens(string(out))), c16Comments(c16Tokens(string(src)))), "every comment is still present, in order")
-	out2, err2 := formatter.Format(out, c16Config(cfgk))
+	out2, err2 := formatter.Format(out, cfg)
 	vAssert(err2 == nil && string(out2) == string(out), "formatting its own output changes nothing")
-	out3, err3 := formatter.Format(src, c16Config(cfgk))
+	out3, err3 := formatter.Format(src, cfg)
 	vAssert(err3 == nil && string(out3) == string(out), "the same source formats to the same text whatever was formatted before")
 	vCover("end")
 }
